@@ -343,6 +343,47 @@ fn run_status(acc: &mut Acc, tier: Tier) {
             }
         }
     }
+    // the legacy `time: elapsed:total` field (servers without `duration`): a value that is not two
+    // numbers around one colon is outside its domain
+    for v in ["345", "1:2:3", "12:", "x", "", ":", "1:x", "1:-2"] {
+        let mut fields = AStatus::base(full & !(1 << 6)).encode();
+        for fld in fields.iter_mut() {
+            if fld.0 == "time" {
+                fld.1 = v.to_string();
+            }
+        }
+        if !fields.iter().any(|f| f.0 == "time") {
+            crate::common::machinery_error("C16: the legacy status reply has no time field");
+        }
+        acc.replies += 1;
+        acc.nontrivial += 1;
+        acc.checks += 1;
+        match catch(|| c::Status.response(frame_of(&fields))) {
+            Ok(Err(_)) => {}
+            Ok(Ok(s)) => report(acc, "status-out-of-domain-time", format!("`time: {v}` (no duration field) is outside the field's domain but the reply decodes to duration {:?}", s.duration), "status-raw", &fields),
+            Err(p) => report(acc, "status-panic", format!("panic: {p}"), "status-raw", &fields),
+        }
+    }
+    // other decimal spellings than MPD's %.3f: the value is the decimal, however many digits
+    for text in crate::props::c14::DURATION_SPELLINGS {
+        let mut fields = AStatus::base(full).encode();
+        for fld in fields.iter_mut() {
+            if fld.0 == "elapsed" || fld.0 == "duration" {
+                fld.1 = text.to_string();
+            }
+        }
+        acc.replies += 1;
+        acc.checks += 2;
+        let want = Some(crate::props::c14::dur(text));
+        match catch(|| c::Status.response(frame_of(&fields))) {
+            Ok(Ok(st)) => {
+                if st.elapsed != want || st.duration != want {
+                    report(acc, "status-duration-precision", format!("`elapsed/duration: {text}` decodes to {:?} / {:?}, server sent {want:?}", st.elapsed, st.duration), "status-raw", &fields);
+                }
+            }
+            other => report(acc, "status-rejected", format!("well-formed status with elapsed {text}: {other:?}"), "status-raw", &fields),
+        }
+    }
     // every millisecond value in a range: the decoded duration is exactly the decimal sent
     let mut ms_values: Vec<u64> = (0..=tier.pick(20_000u64, 200_000u64)).collect();
     for big in [59_999u64, 3_599_999, 86_400_001, 4_294_967_295, 4_294_967_296_007, 9_007_199_254_740] {
